@@ -9,13 +9,15 @@ W=/dev/shm/iso_$SLOT
 # reviewers and background suites always get the committed harness
 case "$SLOT" in review*|seed*|pres*) ISO_SIM=head;; esac
 mkdir -p $W/out
-rsync -a --delete --exclude target --exclude .git /repo/ $W/repo/
+# no -t: a file restored to its original content must get a NEW mtime, or cargo (which compares
+# mtimes) would keep the object code of the previous patch
+rsync -rlpD --checksum --delete --exclude target --exclude .git /repo/ $W/repo/
 if [ "${ISO_SIM:-tree}" = "head" ]; then
   # the committed harness (background runs must not pick up half-finished edits)
   rm -rf $W/sim.new && mkdir -p $W/sim.new && git -C /verif archive HEAD sim | tar -x -C $W/sim.new
-  rsync -a --delete --exclude target $W/sim.new/sim/ $W/sim/
+  rsync -rlpD --checksum --delete --exclude target $W/sim.new/sim/ $W/sim/
 else
-  rsync -a --delete --exclude target /verif/sim/ $W/sim/
+  rsync -rlpD --checksum --delete --exclude target /verif/sim/ $W/sim/
 fi
 sed -i "s|/repo/|$W/repo/|g" $W/sim/Cargo.toml
 if [ "$PATCH" != "-" ]; then
